@@ -400,6 +400,17 @@ def run_case(sc):
                 obs['user_area'] = [canon(x) for x in user.area.v]
         except Exception as e:
             obs['tds_addr_err'] = _exc(e) + ': ' + str(e)[:100]
+        # a second set-up of the same data (System.reset) must leave every back-reference list as it was
+        if 'bref_err' not in obs:
+            try:
+                ss.reset()
+                obs['bref_area2'] = [[[canon(x) for x in l] for l in ss.Area.Bus.v],
+                                     [[canon(x) for x in l] for l in ss.Area.ACTopology.v]]
+                obs['bref_sg2'] = [[[canon(x) for x in l] for l in ss.StaticGen.SynGen.v],
+                                   [[canon(x) for x in l] for l in ss.PV.SynGen.v],
+                                   [[canon(x) for x in l] for l in ss.Slack.SynGen.v]]
+            except Exception as e:
+                obs['reset_err'] = _exc(e) + ': ' + str(e)[:100]
     return obs
 
 
@@ -589,6 +600,15 @@ def model_lines(sc, obs):
 
 
 # ------------------------------------------------------------------ property oracle (no model involved)
+
+def oracle_reset(sc, obs):
+    bad = []
+    for a, b, nm in ((obs.get('bref_area'), obs.get('bref_area2'), 'Area'), (obs.get('bref_sg'), obs.get('bref_sg2'), 'StaticGen/PV/Slack.SynGen')):
+        if a is not None and b is not None and a != b:
+            bad.append(('backref-changes-after-reset', 'back-reference lists of %s after System.reset() (second set-up of the same data) '
+                        'are %r, after the first set-up they were %r' % (nm, str(b)[:160], str(a)[:160])))
+    return bad
+
 
 def oracle(sc, obs):
     """the statement of C19 evaluated on what the real code did, from the harness' own bookkeeping"""
@@ -887,7 +907,7 @@ def check_scenarios(ctx, scs, stream_prefix=''):
         ctx.case(json.dumps(sc, sort_keys=True) if nontrivial(sc) else None,
                  {'scenario': {kk: sc[kk] for kk in ('buses', 'gens', 'syns', 'fm', 'users')},
                   'assigned': obs['assigned'], 'setup': obs['setup']})
-        verdicts = oracle(sc, obs)          # (also records obs['dangling'], used by compare)
+        verdicts = oracle(sc, obs) + oracle_reset(sc, obs)          # (also records obs['dangling'], used by compare)
         compare(ctx, sc, obs, per[k])
         for key, what in verdicts:
             ctx.oracle_fail(key, what, sc)
@@ -1005,7 +1025,7 @@ def search(ctx):
     scs += [gen_scenario(rng) for _ in range(ctx.n(600, 3000))]
     for sc, obs, err in run_many(scs):
         if err is None:
-            for key, what in oracle(sc, obs):
+            for key, what in oracle(sc, obs) + oracle_reset(sc, obs):
                 ctx.oracle_fail(key, what, sc)
 
 
@@ -1015,7 +1035,7 @@ def replay(ctx, rep):
     if err:
         print(err)
         return False
-    bad = oracle(sc, obs)
+    bad = oracle(sc, obs) + oracle_reset(sc, obs)
     for key, what in bad:
         print('  ', key, what)
     return not bad
